@@ -49,14 +49,14 @@ Qed.
 (* the executable owner used by spec_ok is sound for the relational Spec *)
 Lemma owner_fn_sound vh m x n : owner_fn vh m x = Some n -> is_owner vh m x n.
 Proof.
-  unfold owner_fn. destruct (fold_left (best x) (positions vh m) None) as [[p a]|] eqn:E; simpl; [|discriminate].
+  unfold owner_fn, owner_pos. destruct (fold_left (best x) (positions vh m) None) as [[p a]|] eqn:E; simpl; [|discriminate].
   intro H; inversion H; subst. apply fold_best_spec in E as [[Hin|Hacc] Hmin]; [|discriminate].
   exists p. split; [assumption|]. intros q n' Hq. destruct (Hmin (q, n')) as [H1|H1]; simpl in *; auto.
 Qed.
 
 Lemma owner_fn_none vh m x : owner_fn vh m x = None -> positions vh m = [].
 Proof.
-  unfold owner_fn. destruct (positions vh m) as [|a t]; [reflexivity|]. simpl.
+  unfold owner_fn, owner_pos. destruct (positions vh m) as [|a t]; [reflexivity|]. simpl.
   assert (forall l acc, acc <> None -> fold_left (best x) l acc <> None).
   { induction l as [|b l IH]; simpl; intros acc Ha; [assumption|]. apply IH. unfold best. destruct acc; [|congruence].
     destruct (cyc_ltb x (fst b) (fst p)); discriminate. }
